@@ -95,7 +95,7 @@ func (m c02) genCase(ctx *core.Ctx, cfg []string, maxLong int) *core.Case {
 	}
 	n := r.IntN(6)
 	for i := 0; i < n; i++ {
-		op := genOp(r, histKinds{setters: true, resolve: true, clone: true, sp: true, spRead: true})
+		op := genOp(r, histKinds{setters: true, resolve: true, clone: true, sp: true, spRead: true, extra: true})
 		if r.IntN(12) == 0 {
 			op = sOp("canonicalize")
 		}
